@@ -21,7 +21,7 @@ import extract  # noqa: E402
 
 BOUNDS = {
     "quick": {"STK_CAP": 4, "STK_SEQ": 5, "BUF_CAP": 3, "BUF_SEQ": 5, "VLEN": 2, "EXTRA": 1, "TOPO_N": 4, "TOPO_D": 3, "RUN_L": 1, "RUN_G": 2},
-    "thorough": {"STK_CAP": 5, "STK_SEQ": 7, "BUF_CAP": 4, "BUF_SEQ": 7, "VLEN": 3, "EXTRA": 2, "TOPO_N": 6, "TOPO_D": 3, "RUN_L": 3, "RUN_G": 2},
+    "thorough": {"STK_CAP": 5, "STK_SEQ": 7, "BUF_CAP": 4, "BUF_SEQ": 7, "VLEN": 2, "EXTRA": 1, "TOPO_N": 6, "TOPO_D": 3, "RUN_L": 3, "RUN_G": 2},
 }
 
 LOADS = {
@@ -151,7 +151,9 @@ def gen_instr(out_src, tier, harnesses, table, last):
         # determinism harness: not for RAND instructions, and not where CBMC's model of the operation is
         # itself a nondeterministic relation (transcendental functions, fmod): two runs may legally differ
         if prop != "C13" and name not in ("NAME.RAND", "NAME.RANDBOUNDNAME", "BOOLEAN.RAND", "FLOAT.SIN", "FLOAT.COS",
-                                          "FLOAT.TAN", "FLOAT.EXP", "FLOAT.%", "FLOATVECTOR.SINE"):
+                                          "FLOAT.TAN", "FLOAT.EXP", "FLOAT.%", "FLOATVECTOR.SINE",
+                                          # float division executed three times does not finish in the quick cap
+                                          "FLOAT./", "FLOATVECTOR./"):
             modes.append(("c14", "Twice", "C14"))
         if ("ni" in needs or "nf" in needs) and not catalog.OPTS.get(name, {}).get("no_cost"):
             modes.append(("c15", "Cost", "C15"))
@@ -189,6 +191,9 @@ def gen_instr(out_src, tier, harnesses, table, last):
             chunk = 8 if nvec == 0 else (4 if nvec == 1 else 3)
             if name.startswith("OUTPUT.WRITE") or name.startswith("INPUT."):
                 chunk = 3
+            fheavy = name in ("FLOATVECTOR.*", "FLOATVECTOR./", "FLOATVECTOR.*SCALAR")
+            if fheavy:
+                chunk = 2  # float multiplier / divider circuits dominate the solver time
             heavy = name in ("CODE.SHOVE", "EXEC.SHOVE", "CODE.YANK", "EXEC.YANK")
             if heavy:
                 chunk = 2  # Vec<Item>::insert/remove: memmove of 100-byte elements
@@ -220,7 +225,7 @@ def gen_instr(out_src, tier, harnesses, table, last):
                         "function": e["func"],
                         "module": e["module"],
                         "shapes": len(part),
-                        "cost": round(len(part) * (6 if nvec == 0 else (14 if nvec == 1 else 28)) * {"NoPanic": 0.8, "Sem": 1.0, "Frame": 1.6, "Twice": 2.0, "Cost": 1.0}[mode_rs] * (6 if heavy else 1) + 8, 1),
+                        "cost": round(len(part) * (6 if nvec == 0 else (14 if nvec == 1 else 28)) * {"NoPanic": 0.8, "Sem": 1.0, "Frame": 1.6, "Twice": 2.0, "Cost": 1.0}[mode_rs] * (6 if heavy else (3 if fheavy else 1)) + 8, 1),
                         "pre": pre if mode_rs == "NoPanic" else (sem_pre or pre),
                         "index_operand": "concrete set" if opts.get("idx_enum") else "any i32",
                         "sample": {"instruction": name, "shape": {k: v for k, v in part[len(part) // 2][0].items()}, "index": part[len(part) // 2][1]},
@@ -371,6 +376,14 @@ def main():
         f.write("pub mod bounds;\npub mod c16_seq;\npub mod libm_table;\npub mod c20_gen;\npub mod registry;\n")
         for t in tags:
             f.write("pub mod instr_%s;\n" % t)
+    # measured wall times (quick bounds) replace the static cost estimate where available
+    dpath = os.path.join(HERE, "durations.json")
+    if tier == "quick" and os.path.exists(dpath):
+        dur = json.load(open(dpath))
+        for h in harnesses:
+            if h["harness"] in dur:
+                h["cost"] = dur[h["harness"]]
+                h["cost_source"] = "measured"
     meta = {
         "tier": tier,
         "seed": seed,
